@@ -806,8 +806,18 @@ func TestX10Replay(t *testing.T) {
 	scns := vh.ReadScenarios[scenario](t, "VERIF_IN")
 	out := vh.NewOut(t, "VERIF_OUT")
 	only := vh.EnvInt("VERIF_ONLY", -1)
+	shard, shards := vh.EnvInt("VERIF_SHARD", 0), vh.EnvInt("VERIF_SHARDS", 1)
+	skip := map[int]bool{}
+	for _, x := range strings.Split(os.Getenv("VERIF_SKIPIDS"), ",") {
+		if n, err := strconv.Atoi(x); err == nil {
+			skip[n] = true
+		}
+	}
 	for i, s := range scns {
 		if only >= 0 && i != only {
+			continue
+		}
+		if only < 0 && (i%shards != shard || skip[i]) {
 			continue
 		}
 		marker(strconv.Itoa(i))
